@@ -11,5 +11,6 @@ CHECKS = ('meta',)
 def run(ctx): return run_session_property(ctx, CHECKS, dict(vary=lambda i, rng: dict(use_log=(i % 2 == 0), rotate=(i % 3 == 0))), 'metadata does not precede the data referencing it on the implementation')
 def search(ctx):
     c2 = Ctx(ctx.pid, 'quick', ctx.seed + 1, random.Random(ctx.seed + 99), ctx.drivers, True); c2.n = lambda q, t: 6000
-    return [v for v in run(c2)['violations'] if v[1]]
+    found = [v for v in run(c2)['violations'] if v[1]]
+    return found or inside_search(ctx, CHECKS, 'metadata does not precede the data referencing it on the implementation')
 def replay(ctx, rp): return session_replay(ctx, rp, CHECKS)
